@@ -59,6 +59,7 @@ Fixpoint msg_go (idx : list Z) (flag : Z) (acc : bytes) : prog bytes :=
       if Z.testbit flag (i - 1) then msg_go t flag acc
       else match v with
            | VOne (ABytes b) => msg_go t flag (acc ++ b)
+           | VOne (AByteArr b) => msg_go t flag (acc ++ b)     (* bytes += bytearray is bytes: a sigfield held as a bytearray is read *)
            | _ => Raise TypeError
            end
     end
